@@ -113,6 +113,8 @@ RenderErrs(x, prec, t) ==
              \cup (IF ~Within(x.m, x.e, BOfDigits(p.ip \o p.fp), Len(p.fp), 2, RenderUlps, x.e) THEN {"inaccurate"} ELSE {})
 
 \* ------------------------------------------------------------ C12, parsing: atof32 / atof64 / strtod / atof
+RECURSIVE SatVal(_, _, _)
+SatVal(ds, i, acc) == IF i > Len(ds) THEN acc ELSE SatVal(ds, i + 1, IF acc >= 10000 THEN acc ELSE acc * 10 + ds[i])
 \* literal grammar [+-]d*[.d*][(e|E)[+-]d+] with at least one mantissa digit; the longest such prefix is consumed
 Literal(t) ==
    LET hasSign == Len(t) >= 1 /\ t[1] \in {43, 45}
@@ -127,10 +129,8 @@ Literal(t) ==
        ee == IF hasE THEN DigEnd(t, es) ELSE mend
        expOK == hasE /\ ee > es
        \* exponent value, saturated (literals with more than 4 exponent digits are far out of range anyway)
-       ev == IF expOK THEN (IF ee - es > 4 THEN 9999 ELSE
-                 LET dv == DigVals(t, es, ee) IN
-                 (IF Len(dv) >= 1 THEN dv[Len(dv)] ELSE 0) + (IF Len(dv) >= 2 THEN 10 * dv[Len(dv) - 1] ELSE 0)
-                 + (IF Len(dv) >= 3 THEN 100 * dv[Len(dv) - 2] ELSE 0) + (IF Len(dv) >= 4 THEN 1000 * dv[Len(dv) - 3] ELSE 0)) ELSE 0
+       \* exponent value, saturated at 10000 and more (far outside every format; leading zeros do not count)
+       ev == IF expOK THEN SatVal(DigVals(t, es, ee), 1, 0) ELSE 0
        eneg == expOK /\ t[mend + 1] = 45
    IN [ok |-> nd > 0,
        end |-> IF nd = 0 THEN 0 ELSE IF expOK THEN ee - 1 ELSE mend - 1,       \* offset of the first unconsumed character
